@@ -8,6 +8,7 @@ plus exhaustive enumeration of preference-list pairs for the first-client-match 
 
 import itertools
 import json
+import os
 import struct
 
 import asyncssh
@@ -15,6 +16,7 @@ from asyncssh.kex import get_kex_algs
 
 import core
 import pair as P
+import refpeer as R
 from vloop import EOF, Livelock
 
 PROP = 'C03'
@@ -559,6 +561,97 @@ def hostcert_nego_worker(job):
     return acc
 
 
+# ------------------------------------------------------------------ several connections served from one set of host keys
+class _RsaAwarePeer(R.RefPeer):
+    """records which signature algorithm the server used and verifies RSA host signatures with PyCA"""
+    sig_alg_used = None
+
+    def _verify_hostsig(self, ks, sig, H):
+        from cryptography.hazmat.primitives.asymmetric import padding, rsa
+        from cryptography.hazmat.primitives import hashes
+        r = R.Reader(ks)
+        alg = r.string()
+        s_ = R.Reader(sig)
+        self.sig_alg_used = s_.string().decode()
+        if alg != b'ssh-rsa':
+            return R.RefPeer._verify_hostsig(self, ks, sig, H)
+        e, n = r.mpint(), r.mpint()
+        h = {'ssh-rsa': hashes.SHA1, 'rsa-sha2-256': hashes.SHA256, 'rsa-sha2-512': hashes.SHA512}.get(self.sig_alg_used)
+        if h is None:
+            raise R.RefError('unknown RSA signature algorithm %r' % self.sig_alg_used)
+        try:
+            rsa.RSAPublicNumbers(e, n).public_key().verify(s_.string(), H, padding.PKCS1v15(), h())
+        except Exception:        # pylint: disable=broad-except
+            raise R.RefError('RSA host signature does not verify') from None
+
+
+def shared_hostkey_run(lists, chooser):
+    """Two clients with different host key algorithm lists connect to ONE server configuration (one options
+    object, as one listener uses for every connection it accepts); packet deliveries of the two handshakes
+    interleave.  Each connection's exchange is signed with the algorithm negotiated on THAT connection."""
+    loop = P.fresh(0)
+    P.install_wire_labels()
+    viol, steps = [], 0
+    try:
+        sopt = asyncssh.SSHServerConnectionOptions(server_factory=lambda: P.RecServer({}), server_host_keys=[P.key('host-rsa', 'ssh-rsa', key_size=2048)],
+                                                   login_timeout=0, keepalive_interval=0)
+        conns = []
+        for i, algs in enumerate(lists):
+            srv = asyncssh.SSHServerConnection(loop, sopt)
+            rp = _RsaAwarePeer('client', hostkey_algs=tuple(algs), rand=os.urandom)
+            proto = R.RefProtocol(rp)
+            rt, st = loop.make_pair(proto, srv, addr_a=('127.0.0.1', 40001 + i), labels=('ref%d' % i, 'server%d' % i))
+            conns.append((srv, rp, proto, rt, st))
+        for srv, rp, proto, rt, st in conns:
+            srv.connection_made(st)
+            proto.connection_made(rt)
+        while True:
+            loop.quiesce()
+            opts = [t for c in conns for t in (c[4], c[3]) if t in loop.deliverable()]
+            if not opts:
+                break
+            k = chooser.choose(len(opts), label='deliver') if len(opts) > 1 else 0
+            loop.deliver(opts[k])
+            steps += 1
+            if steps > 400:
+                raise Livelock('handshakes too long')
+        for i, (srv, rp, proto, rt, st) in enumerate(conns):
+            want = lists[i][0]
+            if proto.error:
+                viol.append(('refpeer-reject', 'connection %d: %s' % (i, proto.error)))
+            elif rp.kex_done < 1:
+                viol.append(('kex-incomplete', 'connection %d' % i))
+            elif rp.sig_alg_used != want:
+                viol.append(('other-connections-algorithm', 'connection %d offered %r, its exchange was signed with %r (the other connection offered %r)'
+                             % (i, lists[i], rp.sig_alg_used, lists[1 - i])))
+        if loop.unretrieved():
+            viol.append(('loop-exception', repr(loop.exc_log[0].get('exception'))[:200]))
+    except Livelock as exc:
+        viol.append(('livelock', str(exc)))
+    finally:
+        P.done(loop)
+    return {'viol': viol, 'steps': steps}
+
+
+def shared_hostkey_worker(job):
+    lists, bound = job
+    acc = core.Acc()
+
+    def check(obs, ch):
+        acc.add(core.digest(('shared-hostkey', lists, tuple(ch.choices))), transitions=obs['steps'],
+                sample={'two_connections_one_server': [list(x) for x in lists]} if not any(ch.choices) else None)
+        for k, d in obs['viol']:
+            acc.violation('nego:%s:shared-hostkey' % k, d, {'kind': 'shared-hostkey', 'lists': [list(x) for x in lists], 'choices': ch.choices})
+    core.explore_dfs(lambda ch: shared_hostkey_run(lists, ch), bound, check)
+    return acc
+
+
+def shared_hostkey_jobs(tier):
+    algs = ['rsa-sha2-512', 'rsa-sha2-256', 'ssh-rsa']
+    pairs = [((a,), (b,)) for a in algs for b in algs if a != b] + [(('rsa-sha2-256', 'ssh-rsa'), ('ssh-rsa', 'rsa-sha2-512'))]
+    return [(p, 2 if tier == 'quick' else 3) for p in pairs]
+
+
 def main(tier, seed):
     t0 = core.now()
     ks = kex_list(tier)
@@ -582,6 +675,7 @@ def main(tier, seed):
     acc.merge(core.pmap(hostcert_nego_worker, core.rotate(cj, seed), chunksize=8))
     aj = [(cat, role, l) for cat in ACATS for role in ('server', 'client') for l in sublists(ACATS[cat][0])]
     acc.merge(core.pmap(asym_worker, core.rotate(aj, seed)))
+    acc.merge(core.pmap(shared_hostkey_worker, shared_hostkey_jobs(tier)))
     rule = ('for each of %d non-GSS kex methods and each direction: edits of the version line (software '
             'byte, comment, trailing space/tab/CR, case, protocol number), of KEXINIT (cookie, each of the 10 '
             'name-lists: drop first/middle/last, duplicate, swap, keep only last, append, prepend; '
@@ -590,7 +684,9 @@ def main(tier, seed):
             'handshake must not complete on either side.  Negotiation: every ordered pair of non-empty '
             'permutation sub-lists of a 3-algorithm alphabet for kex, cipher, MAC, compression and host key '
             'algorithm through a real handshake (host keys with and without a host certificate: the signature algorithm is the negotiated one); cipher, MAC and compression also with different lists for the two '
-            'directions, offered by the independent peer to a real server and to a real client' % len(ks))
+            'directions, offered by the independent peer to a real server and to a real client; two clients with different RSA host key algorithm lists on '
+            'one server configuration, every interleaving of the two handshakes within the deviation bound: each exchange is signed with its own '
+            'connection\'s algorithm; the edits also under the waits of get_server_host_key / get_server_auth_methods' % len(ks))
     return core.finish(PROP, tier, seed, 'fault_enumeration', acc, t0, rule,
                        {'kex_methods': ks, 'edit_execs': n_edit,
                         'quick_reduction': 'slow DH groups (15-18) and RSA kex get every 6th edit in quick'},
@@ -599,6 +695,14 @@ def main(tier, seed):
 
 
 def replay(rep):
+    if rep['replay'].get('kind') == 'shared-hostkey':
+        r = rep['replay']
+        obs = shared_hostkey_run(tuple(tuple(x) for x in r['lists']), core.Chooser(r['choices']))
+        print(json.dumps(obs, indent=1, default=repr))
+        if obs['viol']:
+            print('VIOLATION property=%s replay=(given)' % PROP)
+            return 1
+        return 0
     r = rep['replay']
     if r['kind'] == 'nego':
         acc = core.Acc()
